@@ -117,3 +117,10 @@ add(
     "Trusts the structural model (vf/props/c16.py model_sub) and multipledispatch's own ordering only through its observable choices.",
     "DESIGN.md section 3 C16",
 )
+add(
+    "C07",
+    "model-based (stateful) property testing: generated construct/drop/gc/pickle/copy/reinterpret/reallocate histories over a pool of term, domain and op recipes against a reference model of structural keys with arrays compared by identity",
+    "Bounded exploration of 6-24 step histories: after every step two live reflect-level handles must be identical iff their structural keys are equal, constructed objects carry exactly the requested arguments (array identity, op parameters such as alternative slice spellings), pickle/copy/reinterpret under reflect return the identical object, and every term (and every Variable inside a frozenset argument) that no live handle reaches must be dead after gc.collect().",
+    "Relies on CPython reference counting + gc.collect(); identity is demanded only for constructions that do not evaluate; domains, ops and parametrised types are checked for identity, not reclamation.",
+    "DESIGN.md section 3 C07",
+)
